@@ -165,6 +165,12 @@ func vxPattern(p string) string {
 		return strings.ToUpper(vxChipDefs[0].Prefix)
 	case "unknown":
 		return "f71882fg"
+	case "badregex-glob":
+		return "*-isa-0290"
+	case "badregex-paren":
+		return vxChipDefs[0].Prefix + "("
+	case "badregex-bracket":
+		return vxChipDefs[0].Prefix + "-isa-[0290"
 	}
 	panic(p)
 }
@@ -182,6 +188,9 @@ type vxBound struct {
 // temperature inputs that have an input file, ascending by number; rpmChannel = the fan's number;
 // PWM and enable come from pwmChannel, which defaults to the rpm channel.
 func vxRefBind(shapes []vxShape, sel vxSel) vxBound {
+	if strings.HasPrefix(sel.Pattern, "badregex") {
+		return vxBound{} // not a valid regular expression: names no device
+	}
 	pat := strings.TrimSuffix(strings.TrimPrefix(strings.ToLower(vxPattern(sel.Pattern)), "^"), "$")
 	hit := -1
 	for i := range shapes {
@@ -437,6 +446,14 @@ func (st *vxState) combo(c *vxCase) {
 			fl := append([]int{}, s.Fans...)
 			sort.Ints(fl)
 			id := fmt.Sprintf("vxfan_c%d", i)
+			if len(fl) > 1 {
+				// an EARLIER entry for the same detected fan with an explicit, different pwmChannel: what it overrides must
+				// not leak into the entry after it, which leaves pwmChannel at its default
+				aid := fmt.Sprintf("vxfan_alias_c%d", i)
+				cfg.Fans = append(cfg.Fans, configuration.FanConfig{ID: aid, Curve: "curve", HwMon: &configuration.HwMonFanConfig{Platform: vxChipDefs[i].Full, RpmChannel: fl[0], PwmChannel: fl[1]}})
+				wants = append(wants, want{aid, vxBound{OK: true, Rpm: filepath.Join(dir, fmt.Sprintf("fan%d_input", fl[0])), Pwm: filepath.Join(dir, fmt.Sprintf("pwm%d", fl[1])),
+					En: filepath.Join(dir, fmt.Sprintf("pwm%d_enable", fl[1])), RpmVal: vxVal(i, "rpm", fl[0]), PwmVal: vxVal(i, "pwm", fl[1])}, true})
+			}
 			cfg.Fans = append(cfg.Fans, configuration.FanConfig{ID: id, Curve: "curve", HwMon: &configuration.HwMonFanConfig{Platform: vxChipDefs[i].Full, RpmChannel: fl[0]}})
 			wants = append(wants, want{id, vxBound{OK: true, Rpm: filepath.Join(dir, fmt.Sprintf("fan%d_input", fl[0])), Pwm: filepath.Join(dir, fmt.Sprintf("pwm%d", fl[0])),
 				En: filepath.Join(dir, fmt.Sprintf("pwm%d_enable", fl[0])), RpmVal: vxVal(i, "rpm", fl[0]), PwmVal: vxVal(i, "pwm", fl[0])}, true})
@@ -552,7 +569,7 @@ func (st *vxState) comboBad(c *vxCase) {
 func (st *vxState) cliSensor(c *vxCase, exp vxBound) {
 	gosensors.VerifSetSpec(vxSpecs(c))
 	path := filepath.Join(vxBase, "fan2go.yaml")
-	y := fmt.Sprintf("sensors:\n  - id: %s\n    hwmon:\n      platform: %s\n      index: %d\n", vxSensorID, vxPattern(c.Sel.Pattern), c.Sel.N)
+	y := fmt.Sprintf("sensors:\n  - id: %s\n    hwmon:\n      platform: %q\n      index: %d\n", vxSensorID, vxPattern(c.Sel.Pattern), c.Sel.N)
 	vxMust(os.WriteFile(path, []byte(y), 0644))
 	var s interface{ GetValue() (float64, error) }
 	var input, pmsg string
@@ -651,6 +668,10 @@ func vxSelectors() []vxSel {
 	}
 	r = append(r, vxSel{Kind: "fan", Pattern: "unknown", By: "index", N: 1}, vxSel{Kind: "fan", Pattern: "unknown", By: "rpmChannel", N: 1},
 		vxSel{Kind: "sensor", Pattern: "unknown", N: 1})
+	// platform strings that are not valid regular expressions (glob style, typos): clean failure naming the entry
+	for _, p := range []string{"badregex-glob", "badregex-paren", "badregex-bracket"} {
+		r = append(r, vxSel{Kind: "fan", Pattern: p, By: "index", N: 1}, vxSel{Kind: "sensor", Pattern: p, N: 1})
+	}
 	return r
 }
 
